@@ -159,6 +159,8 @@ pub fn check(ctx: &Ctx) -> i32 {
             report.violations.push(write_replay(ctx, "gencore", &bytes, &f));
         }
     }
+    // coverage-guided campaign over the generator's choice buffers (thorough only)
+    crate::fuzzrun::semantic_phase(ctx, &mut ev, &mut report, "stages", 1112, "gencore", 600, &|b| super::corecase::run(ctx, super::corecase::Mode::Stages, b));
     finish(ctx, &ev, &report, start)
 }
 
